@@ -12,7 +12,7 @@ Open Scope Z_scope.
 (* CALL/RETURN's register shuffle for arbitrary (possibly aliased) operand registers *)
 Lemma swap_any_wf s a b : wf_vm s -> pc_ok s -> reg_ix a -> reg_ix b ->
   forall X, (X = exec_CALL_via_CALL_AND_RETURN \/ X = exec_RETURN_via_CALL_AND_RETURN) ->
-  exists s', X [PI a; PI b] s = Ok (tt, s') /\ wf_vm s'.
+  exists s', X [PI a; PI b] s = Ok (tt, s') /\ wf_vm s' /\ op_count s' = op_count s.
 Proof.
   intros W Hp Ha Hb X HX.
   assert (H14 : reg_ix 14) by (unfold reg_ix; lia).
@@ -34,12 +34,13 @@ Proof.
   set (s2 := setreg 14 (getreg s1 a) s1).
   assert (W2 : wf_vm s2) by (apply wf_setreg; [exact W1|exact H14|apply getreg_word; assumption]).
   mstep ltac:(apply vm_store_register_ok; [apply (wf_r _ W2)|exact Ha|apply (wf_wovf _ W2)]).
-  eexists. split; [reflexivity|].
-  apply wf_setreg; [exact W2|exact Ha|apply getreg_word; assumption].
+  eexists. split; [reflexivity|]. split.
+  - apply wf_setreg; [exact W2|exact Ha|apply getreg_word; assumption].
+  - subst s2 s1. rewrite !op_count_setreg. reflexivity.
 Qed.
 
 Lemma exec_CALL_any s a b : wf_vm s -> pc_ok s -> reg_ix a -> reg_ix b ->
-  exists s', exec_CALL [PI a; PI b] s = Ok (tt, s') /\ wf_vm s'.
+  exists s', exec_CALL [PI a; PI b] s = Ok (tt, s') /\ wf_vm s' /\ op_count s' = op_count s.
 Proof.
   intros W Hp Ha Hb. pose proof (wf_r _ W) as [Hl _].
   unfold exec_CALL.
@@ -47,31 +48,32 @@ Proof.
   mstep ltac:(apply vm_load_register_ok; assumption).
   mstep reflexivity. mstep reflexivity.
   destruct (swap_any_wf (upd_ers (ers s ++ [(getreg s b, pc s + 1)]) s) a b
-              (wf_upd_ers _ _ W) Hp Ha Hb _ (or_introl eq_refl)) as (s' & E & W').
+              (wf_upd_ers _ _ W) Hp Ha Hb _ (or_introl eq_refl)) as (s' & E & W' & O').
   pynorm. mstep ltac:(exact E).
-  eexists. split; [reflexivity|exact W'].
+  eexists. split; [reflexivity|]. split; [exact W'|exact O'].
 Qed.
 
 Lemma exec_RETURN_any s a b : wf_vm s -> pc_ok s -> reg_ix a -> reg_ix b ->
-  exists s', exec_RETURN [PI a; PI b] s = Ok (tt, s') /\ wf_vm s'.
+  exists s', exec_RETURN [PI a; PI b] s = Ok (tt, s') /\ wf_vm s' /\ op_count s' = op_count s.
 Proof.
   intros W Hp Ha Hb. pose proof (wf_r _ W) as [Hl _].
-  assert (K : forall s0, wf_vm s0 -> pc_ok s0 ->
-            exists s', (exec_RETURN_via_CALL_AND_RETURN [PI a; PI b];;; ret tt) s0 = Ok (tt, s') /\ wf_vm s').
-  { intros s0 W0 P0.
-    destruct (swap_any_wf s0 a b W0 P0 Ha Hb _ (or_intror eq_refl)) as (s' & E & W').
-    mstep ltac:(exact E). eexists. split; [reflexivity|exact W']. }
+  assert (K : forall s0, wf_vm s0 -> pc_ok s0 -> op_count s0 = op_count s ->
+            exists s', (exec_RETURN_via_CALL_AND_RETURN [PI a; PI b];;; ret tt) s0 = Ok (tt, s') /\ wf_vm s'
+                       /\ op_count s' = op_count s).
+  { intros s0 W0 P0 O0.
+    destruct (swap_any_wf s0 a b W0 P0 Ha Hb _ (or_intror eq_refl)) as (s' & E & W' & O').
+    mstep ltac:(exact E). eexists. split; [reflexivity|]. split; [exact W'|congruence]. }
   unfold exec_RETURN.
   astep.
   mstep ltac:(apply vm_load_register_ok; assumption).
   mstep reflexivity. cbn [truthy].
-  destruct (warn_return_on (cfg s)) eqn:Ew; cbv beta iota; [|apply K; assumption].
+  destruct (warn_return_on (cfg s)) eqn:Ew; cbv beta iota; [|apply K; [assumption..|reflexivity]].
   destruct (rev (ers s)) as [|[ca ex] t] eqn:Er.
   - assert (Ee : ers s = []) by (rewrite <- (rev_involutive (ers s)), Er; reflexivity).
     assert (Hne : ers_nonempty s = Ok (PB false, s)) by (unfold ers_nonempty; rewrite Ee; reflexivity).
     mstep ltac:(exact Hne). cbn [truthy]. cbv beta iota.
     mstep reflexivity. mstep reflexivity. mstep reflexivity. mstep reflexivity. pynorm.
-    apply K; [apply wf_upd_swc, wf_upd_out, W|exact Hp].
+    apply K; [apply wf_upd_swc, wf_upd_out, W|exact Hp|reflexivity].
   - assert (Hne : ers_nonempty s = Ok (PB true, s))
       by (unfold ers_nonempty; destruct (ers s); [discriminate Er | reflexivity]).
     assert (Hpop : ers_pop s = Ok ((PI ca, PI ex), upd_ers (rev t) s))
@@ -79,9 +81,9 @@ Proof.
     mstep ltac:(exact Hne). cbn [truthy]. cbv beta iota.
     mstep ltac:(exact Hpop). pynorm.
     destruct (ex =? getreg s b) eqn:Eg; cbn [negb]; cbv beta iota.
-    + apply K; [apply wf_upd_ers, W|exact Hp].
+    + apply K; [apply wf_upd_ers, W|exact Hp|reflexivity].
     + mstep reflexivity. mstep reflexivity. mstep reflexivity. mstep reflexivity. pynorm.
-      apply K; [apply wf_upd_swc, wf_upd_out, wf_upd_ers, W|exact Hp].
+      apply K; [apply wf_upd_swc, wf_upd_out, wf_upd_ers, W|exact Hp|reflexivity].
 Qed.
 
 Definition runnable (i : instr) : bool :=
@@ -91,12 +93,13 @@ Definition runnable (i : instr) : bool :=
    yields a well-formed state. *)
 Theorem exec_wf : forall o args i s,
   wf_vm s -> pc_ok s -> instr_of o args = Some i -> valid_instr i = true -> runnable i = true ->
-  exists s', exec o (map PI args) s = Ok (tt, s') /\ wf_vm s'.
+  exists s', exec o (map PI args) s = Ok (tt, s') /\ wf_vm s' /\ op_count s' = op_count s.
 Proof.
   intros o args i s W Hp Hi Hv Hr.
   destruct (constrained i s) eqn:Hc.
   - destruct (exec_exact o args i s W Hi Hv Hc) as (mc & mv & Bc & Bv & E).
-    eexists. split; [exact E|]. apply step_wf_spec; try assumption. apply pc_ok_needed, Hp.
+    eexists. split; [exact E|]. split; [apply step_wf_spec; try assumption; apply pc_ok_needed, Hp|].
+    apply step_op_count.
   - destruct i; cbn [constrained runnable] in Hc, Hr; try discriminate.
     + (* CALL, aliased *)
       destruct o; cbn [instr_of] in Hi;
